@@ -4,6 +4,71 @@
 // Python side, where z3 decides the obligations.  Branches on symbolic data are decided eagerly by forking: the engine
 // re-executes the harness under a forced decision prefix (depth-first, exhaustive within the stated bounds).
 import { spawnSync } from 'node:child_process';
+import { Worker } from 'node:worker_threads';
+
+// ---- solver co-process: one `z3 -in` kept alive in a worker thread; the main thread blocks on a SharedArrayBuffer until the answer is there.
+// Every query is sent inside (push)/(pop); an answer that is not a clean sat/unsat is decided again by a fresh process; a process per query (DSE_SPAWN=1) is the fallback.
+const WORKER_SRC = `
+const { workerData, parentPort } = require('node:worker_threads');
+const { spawn } = require('node:child_process');
+const ctrl = new Int32Array(workerData.sab, 0, 4), data = new Uint8Array(workerData.sab, 16);
+const END = '<<END-OF-ANSWER>>';
+let z3 = null, buf = '', resolver = null;
+function start() {
+  z3 = spawn(workerData.z3, ['-in'], { stdio: ['pipe', 'pipe', 'ignore'] });
+  buf = '';
+  z3.stdout.setEncoding('utf8');
+  z3.stdout.on('data', (d) => { buf += d; const i = buf.indexOf(END); if (i >= 0 && resolver) { const out = buf.slice(0, i); buf = ''; const r = resolver; resolver = null; r(out.replace(/"\\s*$/, '')); } });
+  z3.on('exit', () => { z3 = null; if (resolver) { const r = resolver; resolver = null; r('(error "solver process died")'); } });
+  z3.stdin.on('error', () => {});
+  ctrl[2] = z3.pid;
+  z3.stdin.write('(set-option :pp.decimal true)(set-option :pp.decimal_precision 30)\\n');
+}
+parentPort.on('message', async (text) => {
+  if (!z3) start();
+  const out = await new Promise((res) => { resolver = res; z3.stdin.write('(push)\\n' + text + '\\n(pop)\\n(echo "' + END + '")\\n'); });
+  const enc = Buffer.from(out, 'utf8');
+  data.set(enc.subarray(0, data.length));
+  ctrl[1] = Math.min(enc.length, data.length);
+  Atomics.store(ctrl, 0, 2);
+  Atomics.notify(ctrl, 0);
+});
+`;
+let coproc = null;
+function z3Run(z3path, script, pretty) {
+  if (process.env.DSE_SPAWN) {
+    const r = spawnSync(z3path, ['-in', '-T:20'].concat(pretty ? ['pp.decimal=true', 'pp.decimal_precision=30'] : []), { input: script, encoding: 'utf8' });
+    return r.status === null ? '(error "solver killed")' : (r.stdout || '');
+  }
+  if (!coproc) {
+    const sab = new SharedArrayBuffer(16 + (4 << 20));
+    const worker = new Worker(WORKER_SRC, { eval: true, workerData: { sab, z3: z3path } });
+    worker.unref();
+    coproc = { ctrl: new Int32Array(sab, 0, 4), data: new Uint8Array(sab, 16), worker };
+  }
+  const text = script;
+  Atomics.store(coproc.ctrl, 0, 1);
+  coproc.worker.postMessage(text);
+  // the co-process runs without a solver-side timeout (z3's timer costs milliseconds per query); a query that takes longer than 20 s ends the co-process
+  let out = '';
+  const w = Atomics.wait(coproc.ctrl, 0, 1, 20000);
+  if (Atomics.load(coproc.ctrl, 0) === 2) {
+    out = Buffer.from(coproc.data.subarray(0, coproc.ctrl[1])).toString('utf8');
+    Atomics.store(coproc.ctrl, 0, 0);
+  } else {
+    try { if (coproc.ctrl[2] > 0) process.kill(coproc.ctrl[2], 'SIGKILL'); } catch (e) { /* gone already */ }
+    coproc.worker.terminate();
+    coproc = null;
+    out = 'timeout';
+  }
+  if (!/^\s*(sat|unsat)\b/.test(out) || /\(error/.test(out)) {
+    // anything but a clean verdict from the incremental co-process is decided again by a fresh process (the engine's original behaviour)
+    st.stats.fallbacks = (st.stats.fallbacks || 0) + 1;
+    const r = spawnSync(z3path, ['-in', '-T:20'].concat(pretty ? ['pp.decimal=true', 'pp.decimal_precision=30'] : []), { input: script, encoding: 'utf8' });
+    return r.status === null ? '(error "solver killed")' : (r.stdout || '');
+  }
+  return out;
+}
 
 export class Unmodelled extends Error {}
 export class Infeasible extends Error {}
@@ -341,11 +406,10 @@ function solve(extra) {
   const hit = st.qcache.get(body);
   if (hit !== undefined) { st.stats.cache_hits++; return hit; }
   const t0 = Date.now();
-  const r = spawnSync(st.z3, ['-in', '-T:20'], { input: body + '\n(check-sat)\n', encoding: 'utf8' });
+  const out = z3Run(st.z3, body + '\n(check-sat)\n', false).trim();
   st.stats.queries++;
   st.stats.solver_ms += Date.now() - t0;
-  const out = (r.stdout || '').trim();
-  if (/\(error/.test(out) || r.status === null) throw new Unmodelled('solver error: ' + out.slice(0, 200));
+  if (/\(error/.test(out)) throw new Unmodelled('solver error: ' + out.slice(0, 200));
   const res = out.startsWith('sat') ? true : out.startsWith('unsat') ? false : null;
   if (res === null) throw new Unmodelled('solver answered ' + out.slice(0, 40));
   st.qcache.set(body, res);
@@ -355,12 +419,12 @@ function getModel() {
   const consts = [...st.decls.keys()];
   const body = [...st.decls.values()].join('\n') + '\n' + st.pc.map((c) => `(assert ${c})`).join('\n') + '\n(check-sat)\n' +
     consts.map((k) => (k[0] === 'n' ? `(eval ${k})(eval c${k.slice(1)})` : `(eval ${k})`)).join('\n') + '\n';
-  const r = spawnSync(st.z3, ['-in', '-T:20', 'pp.decimal=true', 'pp.decimal_precision=30'], { input: body, encoding: 'utf8' });
-  const lines = (r.stdout || '').split('\n').filter((l) => l.length);
+  const lines = z3Run(st.z3, body, true).split('\n').filter((l) => l.length);
   if (lines[0] !== 'sat') return null;
   const model = {};
   let i = 1;
   for (const k of consts) {
+    if (k[0] === 'b') { model[k] = (lines[i++] || '').trim() === 'true'; continue; }
     if (k[0] === 'n') {
       let v = lines[i++].replace(/[()?\s]/g, ' ').trim();
       let neg = false;
@@ -548,7 +612,12 @@ function makeLazyObject(path) {
 }
 
 Object.assign($S, {
-  NeedsRefinement, Mutation, SymNumV, SymStrV, isBox, isWildcard, getModel, regexToSmt,
+  NeedsRefinement, Mutation, SymNumV, SymStrV, isBox, isWildcard, getModel, regexToSmt, Infeasible, Unmodelled,
+  // symbolic Booleans (C16: "is this definition already in the printing context?"): declared per path, constrained by assume(), branched on by forkOn()
+  symBool(name) { if (!/^[A-Za-z0-9_]+$/.test(name)) throw new Error('symBool name'); st.decls.set('b' + name, `(declare-const b${name} Bool)`); return 'b' + name; },
+  assume(f) { st.pc.push(f); if (!solve()) throw new Infeasible(); },
+  forkOn(f) { return forkBool(f); },
+  entails(f) { return !solve(`(not ${f})`); },
   // explore(body, {kinds, keyPool, maxPaths}): runs body(input) for every feasible refinement / decision sequence
   explore(body, opts) {
     st.kinds = opts.kinds;
@@ -559,7 +628,7 @@ Object.assign($S, {
     st.keysAt = opts.keysAt || null;
     st.extraKeys = opts.extraKeys || [];
     st.extraKinds = opts.extraKinds || ['number'];
-    st.qcache = new Map();
+    if (!opts.keepQueryCache || !st.qcache) st.qcache = new Map();      // the cache is keyed by the complete query text
     st.stack = [{ shape: new Map(), prefix: [] }];
     const results = { paths: 0, infeasible: 0, refinements: 0, unmodelled: [], errors: [], violations: [] };
     const maxPaths = opts.maxPaths || 20000;
